@@ -105,9 +105,12 @@ def run_property(pid, args, contracts, seed):
     path_cover = {}
     cover_ok = set()
     cover_have = set()
+    cover_unsat = {}
+    cover_count = {}
     for r in recs:
         if r["kind"] == "cover":
             cover_have.add(r["contract"])
+            cover_count[r["contract"]] = cover_count.get(r["contract"], 0) + 1
             pk = (r["contract"], tuple(r["meta"].get("decisions") or ()))
             if path_cover.get(pk) != "sat":
                 path_cover[pk] = r["result"]["status"]
@@ -125,8 +128,8 @@ def run_property(pid, args, contracts, seed):
             if st == "unsat":
                 # meaningful only on a path whose hypotheses are satisfiable (an undetected infeasible path proves anything)
                 pk = (r["contract"], tuple(r["meta"].get("decisions") or ()))
-                if path_cover.get(pk) == "sat":
-                    crashes.append("canary proved (engine unsound): %s / %s" % (r["contract"], r["name"]))
+                if path_cover.get(pk) == "sat" or r["meta"].get("canary") == "strict":
+                    crashes.append("canary proved (vacuous hypotheses or unsound engine): %s / %s" % (r["contract"], r["name"]))
                 else:
                     canaries["not_proved"] += 0
                     canaries.setdefault("on_infeasible_path", 0)
@@ -142,6 +145,8 @@ def run_property(pid, args, contracts, seed):
             if st == "unsat":
                 covers.setdefault("infeasible_paths", 0)
                 covers["infeasible_paths"] += 1
+                cover_unsat.setdefault(r["contract"], 0)
+                cover_unsat[r["contract"]] += 1
             elif st == "sat":
                 covers["sat"] += 1
                 cover_ok.add(r["contract"])
@@ -178,8 +183,8 @@ def run_property(pid, args, contracts, seed):
                     payload["confirmed"] = confirmed = True
                     payload["detail"] = "model not reproduced in floats; random search over the contract domain found a failing input"
             path = _write_replay(pid, r["contract"], r["name"], payload)
-            if not r["prop_level"]:
-                # auxiliary obligation: not a property violation by itself
+            if not r["prop_level"] and not changed and not confirmed:
+                # auxiliary obligation refuted on UNCHANGED code without a native witness: the proof must be restructured
                 undecided.append(dict(contract=r["contract"], obligation=r["name"], status="auxiliary-failed", replay=path))
                 continue
             if fe is not None:
@@ -187,10 +192,10 @@ def run_property(pid, args, contracts, seed):
                 continue
             violations.append("VIOLATION property=%s replay=%s%s" % (pid, path, "" if confirmed else " no-failing-input-found"))
         else:
-            if fe is not None and r["prop_level"]:
+            if fe is not None:
                 known_printed.append("KNOWN-FINDING: property=%s %s [%s / %s]" % (pid, fe["what"], r["contract"], r["name"]))
                 continue
-            if changed and r["prop_level"]:
+            if changed:
                 alt = _search_native(r["contract"], r["name"], seed, 400)
                 payload = dict(property=pid, contract=r["contract"], function=r["fn"], obligation=r["name"], kind=r["kind"],
                                solver=res, note="obligation is in the ledger as discharged for the unchanged source; the source "
@@ -202,7 +207,9 @@ def run_property(pid, args, contracts, seed):
                 undecided.append(dict(contract=r["contract"], obligation=r["name"], status="unknown", attempts=res.get("attempts")))
 
     for cn in sorted(cover_have - cover_ok):
-        crashes.append("vacuous: no path of %s has satisfiable hypotheses (cover)" % cn)
+        # vacuous only when EVERY path's hypotheses are refuted; 'unknown' (e.g. quantified invariants) is reported, not fatal
+        if cover_unsat.get(cn, 0) >= cover_count.get(cn, 0):
+            crashes.append("vacuous: every path of %s has unsatisfiable hypotheses (cover)" % cn)
 
     # extraction failures: the proof tier is unavailable for that function on this tree
     for u in unavailable:
@@ -326,10 +333,31 @@ def run_property(pid, args, contracts, seed):
               pid, tier, len(sel), sum(e["paths"] for e in exp), n_obl, n_dis, canaries["refuted"], canaries["total"],
               covers["sat"], covers["total"], bounded["runs"], len(violations), len(known_printed), len(undecided), wall))
 
+    if os.environ.get("D3VC_WRITE_LEDGER") and not args.contract and exit_code == 0:
+        _update_ledger(pid, exp, recs, n_obl)
     if not args.no_evidence and not args.contract:
         write_evidence(pid, tier, seed, sel, exp, recs, n_obl, n_dis, by_backend, solver_cpu, solver_wall, canaries, covers,
                        bounded, extra, violations, known_printed, undecided, unavailable, samples, wall)
     return exit_code
+
+
+def _update_ledger(pid, exp, recs, n_obl):
+    """baseline/ledger.json: per contract the hashes of the functions / modules the obligations were generated from and the
+    names of the obligations discharged on the unchanged tree; per property the obligation count (vacuity guard)"""
+    p = os.path.join(VERIF, "baseline", "ledger.json")
+    led = _ledger()
+    led.setdefault("contracts", {})
+    led.setdefault("properties", {})
+    for e in exp:
+        if e["status"] != "ok":
+            continue
+        names = sorted({r["name"] for r in e["recs"] if r.get("result", {}).get("status") == "unsat" and r["kind"] not in ("canary", "cover")})
+        led["contracts"][e["contract"]] = dict(functions={q: i.get("hash") for q, i in e["functions"].items()}, modules=e["modules"],
+                                               discharged=names, paths=e["paths"])
+    led["properties"][pid] = dict(min_obligations=n_obl)
+    os.makedirs(os.path.dirname(p), exist_ok=True)
+    with open(p, "w") as f:
+        json.dump(led, f, indent=1, sort_keys=True)
 
 
 def _solve_keyed(a):
